@@ -79,6 +79,28 @@ def why_infeasible_without_rules(S, seg, b0, bs):
     return "norule"
 
 
+def root_cause_of_infeasible_bounds(S, seg, b0, bs, rules):
+    """root-cause key of an infeasible (init_progr_len, max_sk_sz) pair, decided by exhaustive searches (E5)"""
+    budget = 150000
+    if rules:
+        # the specification was rewritten.  Does a realizing sequence fit the bounds the original block had?
+        r_orig, _ = brute.exists_within(S, S["max_progr_len"], bs, node_budget=budget)
+        if r_orig == "yes":
+            return "rule-discount"                     # only the discount subtracted for the fired rules is too large
+    r_len, _ = brute.exists_within(S, b0, bs + 4, node_budget=budget)
+    if r_len == "yes":
+        # the length is fine, the stack bound is the problem
+        if not rules and seg is not None:
+            ids = brute.original_to_ids(S, seg)
+            v = seqcheck.check(S, ids) if ids is not None else None
+            if v and v.peak > bs:
+                return "stack-bound:below-original-height"
+        return "stack-bound:simplified-spec-deeper-than-original"
+    if rules:
+        return "rule-lengthens"                        # the rewritten term needs more instructions than the original block had
+    return why_infeasible_without_rules(S, seg, b0, bs)
+
+
 def which_position_bound(S, ids, lb, ub):
     """for a realizing sequence shorter than min_length: which published position bound does it contradict?"""
     if not lb or not ub:
@@ -140,8 +162,8 @@ def check_block(instrs, argv, rng, stats, label, e5_len=6):
             seg = None
         lb = brute.length_lower_bound(S)
         if b0 < lb:
-            fail("bounds-infeasible", ("rule-discount" if rules and lb <= S["max_progr_len"] else rule_key(rules) if rules else
-                                       "length-bound:" + why_infeasible_without_rules(S, seg, b0, bs)),
+            fail("bounds-infeasible", ("rule-discount" if rules and lb <= S["max_progr_len"] else "rule-lengthens" if rules else
+                                       why_infeasible_without_rules(S, seg, b0, bs)),
                  "init_progr_len=%d but every realizing sequence contains %d distinct instructions (rules: %s)" % (b0, lb, rule_key(rules)), S,
                  {"rules": rules})
         hb = brute.height_lower_bound(S)
@@ -176,14 +198,7 @@ def check_block(instrs, argv, rng, stats, label, e5_len=6):
                     outside = [w for w in witnesses]
                     res2, seq2 = ("yes", outside[0][1]) if outside else brute.exists_within(S, b0 + 4, bs + 3, node_budget=150000)
                     if res2 == "yes":
-                        v2 = seqcheck.check(S, seq2)
-                        cul = "rule-discount" if rules and v2 and v2.length <= S["max_progr_len"] and v2.peak <= bs else rule_key(rules)
-                        if not rules or cul != "rule-discount":
-                            # which bound is the binding one?
-                            r_len, _ = brute.exists_within(S, b0, bs + 4, node_budget=150000)
-                            r_hgt, _ = brute.exists_within(S, b0 + 4, bs, node_budget=150000)
-                            which = "stack-bound" if r_len == "yes" else "length-bound" if r_hgt == "yes" else "both-bounds"
-                            cul = which + ":" + (why_infeasible_without_rules(S, seg, b0, bs) if not rules else rule_key(rules))
+                        cul = root_cause_of_infeasible_bounds(S, seg, b0, bs, rules)
                         fail("bounds-infeasible", cul, "no realizing sequence with length<=%d and height<=%d exists (exhaustive search) "
                              "although %s realizes the specification (rules: %s)" % (b0, bs, seq2, rule_key(rules)), S, {"rules": rules})
                     else:
@@ -255,7 +270,7 @@ def shrink(f):
 
     def still(cand):
         for x in check_block(cand, argv, random.Random(1), runner.Stats(), "shrink"):
-            if x.kind == f.kind:
+            if x.bucket == f.bucket:
                 return x
         return None
     return shrink_block(instrs, still, budget_s=15) or f
